@@ -781,6 +781,18 @@ func genC06(r *Rng, e *Emitter, n int) {
 	for _, c := range corpus {
 		emitC06(e, "corpus", c)
 	}
+	// error positions far from anything: incomplete and complete-but-wrong texts followed / preceded
+	// by long runs of one white-space byte (the error message trims its snippet around the column)
+	for _, ws := range []string{"\r", " ", "\t", "\v", "\f", "\xa0", "\x85", "\r\n", "\n"} {
+		for _, k := range []int{29, 30, 31, 32, 59, 60, 61, 64, 100} {
+			run := strings.Repeat(ws, k)
+			for _, body := range []string{"POINT(1 2", "LINESTRING(1 2, 3 4", "POINT(1 2) x", "POINT(", "POLYGON((0 0,1 0,1 1,0 0)", "x"} {
+				emitC06(e, "runs", body+run)
+				emitC06(e, "runs", run+body)
+				emitC06(e, "runs", "POINT (1 2)\n"+run+body+run)
+			}
+		}
+	}
 	for b := 0; b < 256; b++ {
 		emitC06(e, "byte", string([]byte{byte(b)}))
 		emitC06(e, "byte", "POINT"+string([]byte{byte(b)})+"(1 2)")
